@@ -73,6 +73,8 @@ const (
 	evReturn
 	evShutStart
 	evShutReturn
+	evRunStart
+	evRunFail
 )
 
 type event struct {
@@ -180,6 +182,10 @@ type scenarioResult struct {
 	ops          int
 	shutAfterOps int
 	panicText    string
+	runStart     int64  // sequence number taken just before Run / RunOffline is called
+	runFail      int64  // sequence number taken after Run returned an error (listen failed)
+	variant      string // "" = the concurrent-traffic scenario, else the life-cycle variant
+	secondShut   string // life-cycle "shutdown-twice": how the second Shutdown ended
 	stacks       string // goroutine dump taken when the watchdog fired
 	fds          int
 }
@@ -252,6 +258,7 @@ func scenario(r *Rng, hist Hist) (*scenarioResult, error) {
 		}
 		ref.pool = pool
 		runDone = make(chan struct{})
+		res.runStart = nextSeq()
 		go func(pool *gnet.ConnectionPool, runDone chan struct{}) {
 			defer close(runDone)
 			defer func() {
@@ -530,6 +537,213 @@ func scenario(r *Rng, hist Hist) (*scenarioResult, error) {
 	return res, nil
 }
 
+// ---- life-cycle variants: Run that fails to bind, Shutdown racing with / before
+// Run, Shutdown twice, offline pool. Every call and every Shutdown must return
+// within the watchdog.
+
+var lifeVariants = []string{"run-fails-to-bind", "shutdown-then-run", "shutdown-twice", "shutdown-twice-concurrent", "offline"}
+
+func lifecycle(r *Rng, variant string, hist Hist) (*scenarioResult, error) {
+	res := &scenarioResult{variant: variant, maxprocs: runtime.GOMAXPROCS(0)}
+	cfg := gnet.NewConfig()
+	cfg.Address = "127.0.0.1"
+	cfg.DialTimeout = time.Second
+	var occupied net.Listener
+	port, err := freePort()
+	if err != nil {
+		return nil, err
+	}
+	if variant == "run-fails-to-bind" {
+		occupied, err = net.Listen("tcp", "127.0.0.1:0")
+		if err != nil {
+			return nil, err
+		}
+		defer occupied.Close()
+		port = occupied.Addr().(*net.TCPAddr).Port
+	}
+	cfg.Port = uint16(port)
+	ref := &poolRef{}
+	pool, err := gnet.NewConnectionPool(cfg, ref)
+	if err != nil {
+		return nil, err
+	}
+	ref.pool = pool
+	target := fmt.Sprintf("127.0.0.1:%d", port)
+
+	nthreads := 2 + r.Intn(2)
+	res.threads = nthreads
+	res.calls = make([][]callRec, nthreads)
+	var wg sync.WaitGroup
+	phase := make([]chan struct{}, 3) // calls before Shutdown | during | after Shutdown returned
+	for i := range phase {
+		phase[i] = make(chan struct{})
+	}
+	seeds := make([]uint64, nthreads)
+	for i := range seeds {
+		seeds[i] = r.U64()
+	}
+	for t := 0; t < nthreads; t++ {
+		wg.Add(1)
+		go func(t int, tr *Rng) {
+			defer wg.Done()
+			defer func() {
+				if rec := recover(); rec != nil {
+					atomic.AddInt64(&res.panics, 1)
+				}
+			}()
+			for ph := 0; ph < 3; ph++ {
+				<-phase[ph]
+				for i, k := 0, 1+tr.Intn(3); i < k; i++ {
+					rec := callRec{}
+					var err error
+					rec.start = nextSeq()
+					switch tr.Intn(5) {
+					case 0:
+						rec.op = "Size"
+						_, err = pool.Size()
+					case 1:
+						rec.op = "GetConnections"
+						_, err = pool.GetConnections()
+					case 2:
+						rec.op = "BroadcastMessage"
+						_, err = pool.BroadcastMessage(&c32Msg{Payload: []byte{3}}, []string{target})
+					case 3:
+						rec.op = "Connect"
+						err = pool.Connect(target)
+					default:
+						rec.op = "SendMessage"
+						err = pool.SendMessage(target, &c32Msg{Payload: []byte{4}})
+					}
+					rec.ret = nextSeq()
+					rec.ran, rec.class = classify(err)
+					res.calls[t] = append(res.calls[t], rec)
+					if tr.Bool() {
+						runtime.Gosched()
+					}
+				}
+			}
+		}(t, NewRng(seeds[t]))
+	}
+
+	runDone := make(chan struct{})
+	startRun := func() {
+		res.runStart = nextSeq()
+		go func() {
+			defer close(runDone)
+			defer func() {
+				if rec := recover(); rec != nil {
+					atomic.AddInt64(&res.panics, 1)
+					res.panicText = fmt.Sprint(rec)
+				}
+			}()
+			var err error
+			if variant == "offline" {
+				err = pool.RunOffline()
+			} else {
+				err = pool.Run()
+			}
+			if err != nil {
+				res.runFail = nextSeq()
+			}
+		}()
+	}
+	shutdown := func(first bool) chan string {
+		c := make(chan string, 1)
+		go func() {
+			defer func() {
+				if rec := recover(); rec != nil {
+					atomic.AddInt64(&res.panics, 1)
+					res.panicText = fmt.Sprint(rec)
+					c <- "panic: " + fmt.Sprint(rec)
+				}
+			}()
+			pool.Shutdown()
+			if first {
+				res.shutReturn = nextSeq()
+			}
+			c <- "returned"
+		}()
+		return c
+	}
+	wait := func(c chan string, d time.Duration) string {
+		select {
+		case x := <-c:
+			return x
+		case <-time.After(d):
+			if !res.hang {
+				res.hang = true
+				res.stacks = dumpStacks()
+			}
+			return "HANG"
+		}
+	}
+	const dog = 6 * time.Second
+
+	switch variant {
+	case "shutdown-then-run":
+		// Shutdown is called first (e.g. a node stopped while it starts up), Run right after
+		close(phase[0])
+		res.shutStart = nextSeq()
+		sc := shutdown(true)
+		time.Sleep(time.Duration(r.Intn(2000)) * time.Microsecond)
+		startRun()
+		close(phase[1])
+		wait(sc, dog)
+	default:
+		startRun()
+		if variant == "run-fails-to-bind" {
+			select { // Run must come back with the listen error
+			case <-runDone:
+			case <-time.After(dog):
+				res.hang = true
+				res.stacks = dumpStacks()
+			}
+		} else {
+			time.Sleep(time.Duration(500+r.Intn(3000)) * time.Microsecond)
+		}
+		close(phase[0]) // calls between the (failed) Run and Shutdown
+		time.Sleep(time.Duration(r.Intn(3000)) * time.Microsecond)
+		res.shutStart = nextSeq()
+		sc := shutdown(true)
+		close(phase[1])
+		switch variant {
+		case "shutdown-twice-concurrent":
+			res.secondShut = wait(shutdown(false), dog)
+			wait(sc, dog)
+		case "shutdown-twice":
+			wait(sc, dog)
+			res.secondShut = wait(shutdown(false), dog)
+		default:
+			wait(sc, dog)
+		}
+	}
+	close(phase[2]) // calls after Shutdown returned (or hung)
+	allDone := make(chan struct{})
+	go func() { wg.Wait(); close(allDone) }()
+	select {
+	case <-allDone:
+	case <-time.After(dog):
+		if !res.hang {
+			res.hang = true
+			res.stacks = dumpStacks()
+		}
+	}
+	select {
+	case <-runDone:
+		res.runReturned = true
+	case <-time.After(dog):
+		if !res.hang {
+			res.hang = true
+			res.stacks = dumpStacks()
+		}
+	}
+	if !res.hang {
+		res.sizes = pool.VerifPoolSizes()
+	}
+	res.fds = countFds()
+	return res, nil
+}
+
 func dumpStacks() string {
 	buf := make([]byte, 8<<20)
 	n := runtime.Stack(buf, true)
@@ -578,7 +792,15 @@ func run(args []string) error {
 
 	var cases []string
 	for s := 0; s < n; s++ {
-		res, err := scenario(r, hist)
+		var res *scenarioResult
+		var err error
+		if f.Extra != "" { // -extra <variant>: only this life-cycle variant (used when looking for a rare schedule)
+			res, err = lifecycle(r, f.Extra, hist)
+		} else if s%5 == 4 || s < len(lifeVariants) && f.Tier != "quick" {
+			res, err = lifecycle(r, lifeVariants[(s/5+s)%len(lifeVariants)], hist)
+		} else {
+			res, err = scenario(r, hist)
+		}
 		if err != nil {
 			return err
 		}
@@ -602,6 +824,12 @@ func run(args []string) error {
 				hist.Add("call:" + c.op + ":" + c.class)
 			}
 		}
+		if res.runStart != 0 {
+			evs = append(evs, event{seq: res.runStart, kind: evRunStart})
+		}
+		if res.runFail != 0 {
+			evs = append(evs, event{seq: res.runFail, kind: evRunFail})
+		}
 		if res.shutStart != 0 {
 			evs = append(evs, event{seq: res.shutStart, kind: evShutStart})
 		}
@@ -616,7 +844,7 @@ func run(args []string) error {
 			if e.ran {
 				ran = 1
 			}
-			codes[i] = fmt.Sprint(e.thread*8 + e.kind*2 + ran)
+			codes[i] = fmt.Sprint(e.thread*16 + e.kind*2 + ran)
 			switch e.kind {
 			case evStart:
 				evJSON = append(evJSON, fmt.Sprintf("t%d:%s(", e.thread, e.op))
@@ -628,18 +856,25 @@ func run(args []string) error {
 				evJSON = append(evJSON, fmt.Sprintf("t%d:)%s", e.thread, cl))
 			case evShutStart:
 				evJSON = append(evJSON, "Shutdown(")
+			case evRunStart:
+				evJSON = append(evJSON, "Run(")
+			case evRunFail:
+				evJSON = append(evJSON, ")Run:listen-error")
 			default:
 				evJSON = append(evJSON, ")Shutdown")
 			}
 		}
 		sz := res.sizes[0] + res.sizes[1] + res.sizes[2] + res.sizes[3] + res.sizes[4]
 		cases = append(cases, Tuple(List(perThread), List(codes), B(res.hang || !res.runReturned), fmt.Sprint(sz), fmt.Sprint(res.panics)))
-		cj := map[string]interface{}{"threads": res.threads, "gomaxprocs": res.maxprocs, "calls_per_thread": perThread, "events": evJSON,
+		cj := map[string]interface{}{"life_cycle_variant": res.variant, "second_shutdown": res.secondShut, "threads": res.threads, "gomaxprocs": res.maxprocs, "calls_per_thread": perThread, "events": evJSON,
 			"hang": res.hang, "run_returned": res.runReturned, "pool_maps_total_size_after_shutdown": sz, "panics": res.panics, "panic_text": res.panicText, "goroutines_at_watchdog": res.stacks, "open_fds": res.fds,
 			"calls_ran": nran, "calls_pool_closed": nclosed, "calls_started_after_shutdown_returned": nafter}
 		caseJSON["trace"] = append(caseJSON["trace"], cj)
 		o.Count(fmt.Sprint("trace", s, codes), nran > 0 && nclosed > 0)
 		hist.Add(fmt.Sprintf("scenario:threads=%d", res.threads))
+		if res.variant != "" {
+			hist.Add("lifecycle:" + res.variant)
+		}
 		if res.hang {
 			hist.Add("scenario:HANG")
 		}
